@@ -531,6 +531,81 @@ def run_m2g_pairs(block, ctx):
     ctx.sample({"first_year": block[0], "month_day": list(M2G_PAIR_DAYS[0])})
 
 
+# -- two conversions whose day numbers are whole calendar cycles apart -------------------------------------------------
+
+_MOS = []
+CYCLES = (10631, 146097, 1461)          # 30 Moslem years, 400 Gregorian years, 4 Julian years
+
+
+def _mos_table():
+    """Moslem date of every day number from 1 Muharram 1 to the end of the Moslem year 2500 (index n - EPOCH_N)."""
+    if not _MOS:
+        for h, n0 in islamic.year_starts(1, 2500):
+            for (hh, m, d, n) in islamic.days_of_year(h, n0):
+                _MOS.append((hh, m, d))
+    return _MOS
+
+
+def _cycle_partners(i, size):
+    out = []
+    for c in CYCLES:
+        ks = range(1, size // c + 2) if c != 1461 else (1, 2, 25, 100)
+        for k in ks:
+            j = i + k * c
+            if j < size:
+                out.append(j)
+    return out
+
+
+def run_cycle_day_pairs(spec, ctx):
+    """spec = (first index, last index, step).  For every day A of the block (index = days since 1 Muharram 1) and
+    every day B a whole number of 30-year Moslem cycles (all multiples in range), of 400-year Gregorian cycles or of
+    4-year Julian cycles later: the two conversions of A and then of B, and of B and then of A, against the tabular
+    calendars.  A one-slot memo keyed by the place inside such a cycle answers the second call with the first date."""
+    i0, i1, step = spec
+    mos = _mos_table()
+    size = min(len(mos), fast().n(3000, 12, 31) - islamic.EPOCH_N)
+    f = fast()
+    g2m, m2g = Epoch.gregorian2moslem, Epoch.moslem2gregorian
+    for i in range(i0, min(i1, size), step):
+        for j in _cycle_partners(i, size):
+            for a, b in ((i, j), (j, i)):
+                ca, cb = f.date(islamic.EPOCH_N + a), f.date(islamic.EPOCH_N + b)
+                ctx.evals += 4
+                try:
+                    g2m(*ca)
+                    r = tuple(g2m(*cb))
+                    if r != mos[b]:
+                        ctx.viol({"civil": list(cb), "after_civil": list(ca)}, "gregorian2moslem%r right after "
+                                 "gregorian2moslem%r = %r, tabular calendar gives %r" % (cb, ca, r, mos[b]), site="g2m_cycle_pair")
+                    m2g(*mos[a])
+                    r = tuple(m2g(*mos[b]))
+                    if (r[0], r[1], int(r[2])) != cb:
+                        ctx.viol({"moslem": list(mos[b]), "after_moslem": list(mos[a])}, "moslem2gregorian%r right after "
+                                 "moslem2gregorian%r = %r, tabular calendar gives %r" % (mos[b], mos[a], r, cb), site="m2g_cycle_pair")
+                except Exception as ex:
+                    ctx.viol({"civil": list(cb), "after_civil": list(ca)}, "conversion of the day pair raised %r" % ex,
+                             site="cycle_pair_exception")
+        ctx.nt_count += 1
+    ctx.outcome(i0 // 100000)
+    ctx.traces += 1
+    ctx.obs(i0, i1)
+    ctx.sample({"civil": list(f.date(islamic.EPOCH_N + i0 + 10631)), "after_civil": list(f.date(islamic.EPOCH_N + i0))})
+
+
+def replay_cycle_pair(case):
+    if "civil" in case:
+        Epoch.gregorian2moslem(*case["after_civil"])
+        r = tuple(Epoch.gregorian2moslem(*case["civil"]))
+        exp = _mos_table()[fast().n(*case["civil"]) - islamic.EPOCH_N]
+        return [] if r == exp else ["gregorian2moslem%r after %r = %r, expected %r" % (tuple(case["civil"]), tuple(case["after_civil"]), r, exp)]
+    Epoch.moslem2gregorian(*case["after_moslem"])
+    r = tuple(Epoch.moslem2gregorian(*case["moslem"]))
+    exp = fast().date(_moslem_n(*case["moslem"]))
+    return [] if (r[0], r[1], int(r[2])) == exp else ["moslem2gregorian%r after %r = %r, expected %r"
+                                                      % (tuple(case["moslem"]), tuple(case["after_moslem"]), r, exp)]
+
+
 def check_impossible(y):
     """Civil dates that do not exist are accepted silently by gregorian2moslem (it returns the Moslem date of the
     day they overflow to); moslem2gregorian of that result must still be a real civil date - the one the tabular
@@ -593,6 +668,8 @@ def clauses(tier):
                lambda c: check_pesach(c["year"]), floor=1000000, shape="H"),
         Clause("moslem_year_pairs", chunks(list(range(1, 2501)), 64), run_m2g_pairs,
                lambda c: [], floor=1000000, shape="H"),
+        Clause("cycle_day_pairs", [(i, i + 4000, 1 if tier == "thorough" else 23) for i in range(0, 872000, 4000)],
+               run_cycle_day_pairs, replay_cycle_pair, floor=50000, shape="H"),
         Clause("impossible_civil_dates", chunks(list(range(623, 3001)), 16), run_impossible,
                lambda c: check_impossible(c["year"]), floor=2000, shape="H"),
     ] + ([Clause("tlc_cross_model", TLC_WINDOWS, run_tlc, replay_m2g, floor=1000, shape="S"),
